@@ -21,6 +21,7 @@ struct RecTerm {
     size: TerminalSize,
     cmds: Vec<TerminalCommand>,
     caps: TerminalCaps,
+    fail_after: Option<usize>, // execute() fails once that many commands were recorded
 }
 
 impl RecTerm {
@@ -29,6 +30,7 @@ impl RecTerm {
             size: TerminalSize { cells: Size::new(h, w), pixels: Size::new(h * 20, w * 10) },
             cmds: vec![],
             caps: TerminalCaps::default(),
+            fail_after: None,
         }
     }
 }
@@ -44,6 +46,9 @@ impl Write for RecTerm {
 
 impl Terminal for RecTerm {
     fn execute(&mut self, cmd: TerminalCommand) -> Result<(), Error> {
+        if self.fail_after.map(|k| self.cmds.len() >= k).unwrap_or(false) {
+            return Err(Error::from(std::io::Error::new(std::io::ErrorKind::BrokenPipe, "scripted writer error")));
+        }
         self.cmds.push(cmd);
         Ok(())
     }
@@ -76,7 +81,7 @@ const NARROW: [u32; 6] = [0x20, 0x61, 0x62, 0x78, 0x2500, 0xE9];
 const WIDE: [u32; 3] = [0x4E16, 0x754C, 0x1F600];
 const ZERO: [u32; 2] = [0x0301, 0x07];
 const NFACES: u64 = 14;
-const NIMAGES: u64 = 3;
+const NIMAGES: u64 = 4;
 const NGLYPHS: u64 = 2;
 
 /// attributes that are visible on a cell without a character
@@ -140,7 +145,7 @@ fn pools() -> Pools {
             }
         }
     }
-    // pixels per cell are 20 x 10: cell sizes 1x1, 2x3, 3x2 (the last one through rounding up)
+    // pixels per cell are 20 x 10: cell sizes 1x1, 2x3, 3x2 and 4x8 (the last two through rounding up)
     let mk = |h: usize, w: usize, v: u8| {
         Image::from(SurfaceOwned::new_with(Size::new(h, w), |p| RGBA::new(v, (p.row * 7) as u8, (p.col * 5) as u8, 255)))
     };
@@ -213,7 +218,7 @@ struct Env {
     isize: Vec<(usize, usize)>,
 }
 
-const IMAGE_PIXELS: [(usize, usize); 3] = [(20, 10), (40, 30), (50, 15)];
+const IMAGE_PIXELS: [(usize, usize); 4] = [(20, 10), (40, 30), (50, 15), (80, 75)];
 const GLYPH_CELLS: [(usize, usize); 2] = [(1, 2), (1, 1)];
 
 fn char_width(ch: u32) -> usize {
@@ -434,6 +439,8 @@ enum Op {
     Renew,
     /// the terminal is resized and shows the given screen; run_render then does clear() and new(_, true)
     Resize(usize, usize, Screen),
+    /// frame() on a terminal whose execute() fails after k commands (error path; not a rendered frame)
+    FailFrame(usize),
 }
 
 fn ops_parse(v: &Value) -> Vec<Op> {
@@ -445,6 +452,7 @@ fn ops_parse(v: &Value) -> Vec<Op> {
                     "skip" => Op::Skip,
                     "clear" => Op::Clear,
                     "renew" => Op::Renew,
+                    "failframe" => Op::FailFrame(o["k"].as_u64().unwrap_or(0) as usize),
                     "resize" => Op::Resize(
                         o["h"].as_u64().unwrap_or(1) as usize,
                         o["w"].as_u64().unwrap_or(1) as usize,
@@ -466,6 +474,7 @@ fn ops_json(ops: &[Op]) -> Value {
                 Op::Skip => json!({"op": "skip"}),
                 Op::Clear => json!({"op": "clear"}),
                 Op::Renew => json!({"op": "renew"}),
+                Op::FailFrame(k) => json!({"op": "failframe", "k": k}),
                 Op::Resize(h, w, g) => json!({"op": "resize", "h": h, "w": w, "screen": screen_json(g)}),
             })
             .collect(),
@@ -474,6 +483,12 @@ fn ops_json(ops: &[Op]) -> Value {
 
 /// drive the real renderer; one command list per operation (None = panic)
 fn drive(p: &Pools, h: usize, w: usize, clear: bool, ops: &[Op]) -> Option<Vec<Vec<(String, Value)>>> {
+    drive2(p, h, w, clear, ops).map(|x| x.0)
+}
+
+/// also: for every operation, whether frame() returned Err (only FailFrame can)
+#[allow(clippy::type_complexity)]
+fn drive2(p: &Pools, h: usize, w: usize, clear: bool, ops: &[Op]) -> Option<(Vec<Vec<(String, Value)>>, Vec<bool>)> {
     let ops = ops.to_vec();
     let p2: &Pools = p;
     let res = std::panic::catch_unwind(std::panic::AssertUnwindSafe(move || {
@@ -483,9 +498,16 @@ fn drive(p: &Pools, h: usize, w: usize, clear: bool, ops: &[Op]) -> Option<Vec<V
         let mut rend = TerminalRenderer::new(&mut term, clear).expect("new");
         let mut drawn = blank_surf(h, w);
         let mut out = vec![];
+        let mut failed = vec![];
         for op in &ops {
             term.cmds.clear();
+            let mut fail = false;
             match op {
+                Op::FailFrame(k) => {
+                    term.fail_after = Some(*k);
+                    fail = rend.frame(&mut term).is_err();
+                    term.fail_after = None;
+                }
                 Op::Draw(s) => {
                     let mut surf = rend.surface();
                     for (r, row) in s.iter().enumerate() {
@@ -520,12 +542,13 @@ fn drive(p: &Pools, h: usize, w: usize, clear: bool, ops: &[Op]) -> Option<Vec<V
                 }
             }
             let cmds: Vec<(String, Value)> = term.cmds.iter().map(|c| namer.cmd(c, &drawn)).collect();
-            if !matches!(op, Op::Draw(_)) {
+            if !matches!(op, Op::Draw(_)) && !fail {
                 drawn = blank_surf(h, w);
             }
             out.push(cmds);
+            failed.push(fail);
         }
-        out
+        (out, failed)
     }));
     res.ok()
 }
@@ -546,7 +569,7 @@ fn run(p: &Pools, input: &Value) -> Case {
     }
     let h = input["h"].as_u64().unwrap_or(1) as usize;
     let w = input["w"].as_u64().unwrap_or(1) as usize;
-    let ops = ops_parse(&input["ops"]);
+    let mut ops = ops_parse(&input["ops"]);
     let mut env = Env::new(p, h, w);
 
     // oracle tables: every character / image / glyph image that occurs
@@ -579,7 +602,7 @@ fn run(p: &Pools, input: &Value) -> Case {
                 suspended = false;
                 drawn_ovl = false;
             }
-            Op::Draw(_) => {}
+            Op::Draw(_) | Op::FailFrame(_) => {}
         }
         if let Op::Resize(h2, w2, g) = op {
             h = *h2;
@@ -640,7 +663,19 @@ fn run(p: &Pools, input: &Value) -> Case {
     if input["kind"].as_str() == Some("forced") {
         return run_forced(p, input, &ops, dom && !(kinds.0 || kinds.1), &widths, &clist(isizes), &fsp, &fer, &ers);
     }
-    let observed = drive(p, h, w, false, &ops);
+    // "fhist": the renderer is created with clear = true on a terminal that still shows a screen and
+    // placements of a previous renderer (re-creation without clear()), then the whole history
+    let fhist = input["kind"].as_str() == Some("fhist");
+    let observed2 = drive2(p, h, w, fhist, &ops);
+    if let Some((_, failed)) = &observed2 {
+        // a FailFrame whose frame had no more than k commands was an ordinary rendered frame
+        for (i, f) in failed.iter().enumerate() {
+            if matches!(ops[i], Op::FailFrame(_)) && !*f {
+                ops[i] = Op::Frame;
+            }
+        }
+    }
+    let observed = observed2.map(|x| x.0);
     let (impl_coq, impl_json, ncmds, has_ech) = match &observed {
         None => ("[[COther]]".to_string(), json!("panic"), 0usize, false),
         Some(per_op) => (
@@ -656,11 +691,38 @@ fn run(p: &Pools, input: &Value) -> Case {
         Op::Skip => "SkipFrame".to_string(),
         Op::Clear => "Clear".to_string(),
         Op::Renew => "Renew".to_string(),
+        Op::FailFrame(k) => format!("ffr {}", k),
         Op::Resize(h2, w2, g) => format!("rsz {} {} {}", h2, w2, screen_coq(g)),
     }));
     let nframes = ops.iter().filter(|o| matches!(o, Op::Frame)).count();
     let mut j = json!({"h": h, "w": w, "ops": ops_json(&ops)});
     j["impl"] = impl_json;
+    if fhist {
+        let screen = screen_parse(&input["screen"]);
+        let foreign: Vec<(u64, u64, u64)> = input["foreign"]
+            .as_array()
+            .map(|a| a.iter().map(|x| (x[0].as_u64().unwrap_or(0), x[1].as_u64().unwrap_or(0), x[2].as_u64().unwrap_or(0))).collect())
+            .unwrap_or_default();
+        j["kind"] = json!("fhist");
+        j["screen"] = input["screen"].clone();
+        j["foreign"] = input["foreign"].clone();
+        return Case {
+            coq: format!(
+                "FHist {} {} {} {} {} {} {} {} {} {} {}",
+                h, w, widths, clist(isizes), fsp, fer, ers, screen_coq(&screen),
+                clist(foreign.iter().map(|(i, r, c)| format!("({}, {}, {})", i, r, c))),
+                ops_coq, impl_coq
+            ),
+            json: j,
+            tags: vec![
+                "kind=fhist".to_string(),
+                format!("domain={}", if dom { "in" } else { "out" }),
+                format!("fhist-foreign={}", foreign.len().min(2)),
+                format!("frames={}", match nframes { 0 => "0", 1 => "1", 2..=3 => "2-3", _ => "4+" }),
+            ],
+            nontrivial: nframes >= 2 && ncmds > 0,
+        };
+    }
     if kinds.0 || kinds.1 {
         let mut tags = vec![];
         // wide characters hiding one another (kinds.2) are inside the theorems: not a known class
@@ -686,6 +748,8 @@ fn run(p: &Pools, input: &Value) -> Case {
         ("erase-chars", has_ech),
         ("clear", ops.iter().any(|o| matches!(o, Op::Clear))),
         ("renew", ops.iter().any(|o| matches!(o, Op::Renew))),
+        ("failed-frame", ops.iter().any(|o| matches!(o, Op::FailFrame(_)))),
+        ("failed-frame-then-frame", ops.iter().position(|o| matches!(o, Op::FailFrame(_))).map(|i| ops[i..].iter().any(|o| matches!(o, Op::Frame))).unwrap_or(false)),
         ("resize", ops.iter().any(|o| matches!(o, Op::Resize(..)))),
         ("draw-clear-frame", ops.windows(3).any(|x| matches!(x, [Op::Draw(_), Op::Clear, Op::Frame]))),
         ("skip", ops.iter().any(|o| matches!(o, Op::Skip))),
@@ -1068,6 +1132,20 @@ fn run_loop(p: &Pools, input: &Value, widths_of: impl Fn(&BTreeSet<u32>) -> Stri
 }
 
 // ---------------------------------------------------------------- generators
+/// the integer constants written in the renderer's sources and their neighbours (harvested at run time):
+/// widths, run lengths, gap lengths and segment lengths are aimed at them, so that a threshold a change
+/// introduces is reached without knowing it in advance
+fn bounds() -> &'static Vec<u64> {
+    static B: std::sync::OnceLock<Vec<u64>> = std::sync::OnceLock::new();
+    B.get_or_init(|| {
+        let mut v = source_boundaries(&["src/render.rs", "src/surface.rs", "src/terminal.rs"], 34);
+        if v.is_empty() {
+            v = vec![0, 1, 2, 3, 4, 5];
+        }
+        v
+    })
+}
+
 struct Gen<'a> {
     p: &'a Pools,
     env: Env,
@@ -1110,7 +1188,51 @@ impl<'a> Gen<'a> {
         let (h, w) = (self.h, self.w);
         let r = rng.below(h as u64) as usize;
         let c = rng.below(w as u64) as usize;
-        match rng.below(19) {
+        match rng.below(23) {
+            19 | 20 => {
+                // a segment of boundary length in one face: narrow characters, blanks, now and then a wide one
+                let len = (*rng.pick(bounds()) as usize + 2).min(w);
+                let start = c.min(w - len);
+                let f = if rng.chance(1, 2) { 0 } else { self.face(rng) };
+                let mut col = start;
+                while col < start + len {
+                    if col + 2 <= start + len && rng.chance(1, 4) {
+                        s[r][col] = C { k: 0, f, v: *rng.pick(&WIDE) };
+                        s[r][col + 1] = C { k: 0, f, v: 0x20 };
+                        col += 2;
+                    } else {
+                        s[r][col] = C { k: 0, f, v: *rng.pick(&NARROW) };
+                        col += 1;
+                    }
+                }
+            }
+            21 | 22 => {
+                // two cells of a row change, the gap between them (of boundary length) does not; preferably where
+                // the two cells and the whole gap are characters of one face
+                let g = *rng.pick(bounds()) as usize;
+                if g + 2 <= w {
+                    let mut cands = vec![];
+                    for (rr, row) in s.iter().enumerate() {
+                        for cc in 0..=(w - g - 2) {
+                            let seg = &row[cc..cc + g + 2];
+                            if seg.iter().all(|x| x.k == 0 && x.f == seg[0].f) && !self.is_wide(&seg[g + 1]) {
+                                cands.push((rr, cc));
+                            }
+                        }
+                    }
+                    let (rr, cc) = if cands.is_empty() { (r, c.min(w - g - 2)) } else { *rng.pick(&cands) };
+                    for col in [cc, cc + g + 1] {
+                        let old = s[rr][col];
+                        if old.k == 0 && !self.is_wide(&old) {
+                            let mut v = *rng.pick(&NARROW);
+                            if v == old.v {
+                                v = if v == 0x78 { 0x61 } else { 0x78 };
+                            }
+                            s[rr][col] = C { k: 0, f: old.f, v };
+                        }
+                    }
+                }
+            }
             0 | 1 => s[r][c] = self.narrow(rng),
             18 if self.mode != 0 => {
                 // a wide character directly before or behind another one
@@ -1183,7 +1305,7 @@ impl<'a> Gen<'a> {
             }
             11 | 12 => {
                 // a run of blanks around the EraseChars threshold
-                let len = 3 + rng.below(5) as usize;
+                let len = if rng.chance(1, 3) { (*rng.pick(bounds()) as usize).max(1) } else { 3 + rng.below(5) as usize };
                 let f = if rng.chance(1, 2) { 0 } else { self.face(rng) };
                 let start = if rng.chance(1, 3) { w.saturating_sub(len) } else { c };
                 for col in start..(start + len).min(w) {
@@ -1249,9 +1371,31 @@ impl<'a> Gen<'a> {
     }
 }
 
+fn gen_fhist(rng: &mut Rng, p: &Pools) -> Value {
+    let mut v = gen_history(rng, p);
+    let h = v["h"].as_u64().unwrap_or(1) as usize;
+    let w = v["w"].as_u64().unwrap_or(1) as usize;
+    let nf = rng.below(4);
+    let foreign: Vec<Value> = (0..nf)
+        .map(|_| {
+            let i = if rng.chance(2, 3) { rng.below(NIMAGES) } else { 777 };
+            json!([i, rng.below(h as u64), rng.below(w as u64)])
+        })
+        .collect();
+    v["kind"] = json!("fhist");
+    v["screen"] = screen_json(&gen_screen(rng, p, h, w));
+    v["foreign"] = json!(foreign);
+    v
+}
+
 fn gen_history(rng: &mut Rng, p: &Pools) -> Value {
-    let h = if rng.chance(1, 3) { 1 + rng.below(2) as usize } else { 1 + rng.below(6) as usize };
-    let w = if rng.chance(1, 4) { 1 + rng.below(3) as usize } else { 1 + rng.below(12) as usize };
+    let mut h = if rng.chance(1, 3) { 1 + rng.below(2) as usize } else { 1 + rng.below(6) as usize };
+    let mut w = if rng.chance(1, 4) { 1 + rng.below(3) as usize } else { 1 + rng.below(12) as usize };
+    if rng.chance(1, 10) {
+        // a width at a boundary of the source (up to 35 columns), few rows
+        w = (*rng.pick(bounds()) as usize + rng.below(2) as usize).max(1);
+        h = 1 + rng.below(2) as usize;
+    }
     let mut mode = match rng.below(8) {
         0 => 2,
         1 => 1,
@@ -1305,6 +1449,20 @@ fn gen_history(rng: &mut Rng, p: &Pools) -> Value {
                 ops.push(Op::Skip);
             }
             3 => ops.push(Op::Frame), // a frame with nothing drawn
+            7 if rng.chance(1, 2) => {
+                // the terminal fails in the middle of a frame (frame() returns Err); usually the application
+                // then draws and renders again
+                let s = g.next_surface(rng, &prev);
+                prev = s.clone();
+                ops.push(Op::Draw(s));
+                ops.push(Op::FailFrame(if rng.chance(1, 4) { 0 } else { rng.below(14) as usize }));
+                if rng.chance(3, 4) {
+                    let s2 = g.next_surface(rng, &prev);
+                    prev = s2.clone();
+                    ops.push(Op::Draw(s2));
+                    ops.push(Op::Frame);
+                }
+            }
             6 if rng.chance(1, 2) => {
                 // the terminal is resized and shows whatever it likes
                 let h2 = 1 + rng.below(5) as usize;
@@ -1397,7 +1555,13 @@ pub fn generate(rng: &mut Rng, n: usize, _tier: &str) -> Vec<Value> {
     let mut rng = Rng(rng.next());
     (0..n)
         .map(|_| match rng.below(12) {
-            0 => gen_forced(&mut rng, &p),
+            0 => {
+                if rng.chance(1, 2) {
+                    gen_forced(&mut rng, &p)
+                } else {
+                    gen_fhist(&mut rng, &p)
+                }
+            }
             1 => gen_loop(&mut rng, &p),
             _ => gen_history(&mut rng, &p),
         })
